@@ -71,7 +71,10 @@ def rel_alpha(q: ast.AST, draw) -> ast.AST:
     def fresh():
         while True:
             counter[0] += 1
-            n = draw(st.sampled_from(["zz", "k", "ev", "obj", "arg_", "i_obj", "result", "e"])) + str(counter[0])
+            stem = draw(st.sampled_from(["arg_", "zz", "k", "arg_", "ev", "obj", "arg_", "i_obj", "result", "e"]))
+            # `arg_<n>` is what func_adl calls the parameters of the lambdas it builds while fusing: n is taken from the range it will
+            # use for this very translation (check() pins func_adl's counter to ARG_BASE)
+            n = stem + str(ARG_BASE + draw(st.sampled_from([0, 0, 0, 1, 1, 2, 3, 4, 6])) if stem == "arg_" else counter[0])
             if n not in used:
                 used.add(n)
                 return n
@@ -100,6 +103,31 @@ def rel_alpha(q: ast.AST, draw) -> ast.AST:
     return ast.fix_missing_locations(q)
 
 
+ARG_BASE = 1000
+
+
+def rel_reserved(q: ast.AST, draw):
+    """alpha-rename one or two lambda parameters to the very names func_adl will invent during this translation (`arg_<n>`)"""
+    q = copy.deepcopy(q)
+    used = names_in(q)
+    lambdas = [n for n in ast.walk(q) if isinstance(n, ast.Lambda) and n.args.args]
+    if not lambdas:
+        return q, 0
+    done = 0
+    for _ in range(draw(st.integers(1, 2))):
+        node = lambdas[draw(st.integers(0, len(lambdas) - 1))]
+        a = node.args.args[0]
+        new = f"arg_{ARG_BASE + draw(st.sampled_from([0, 0, 1, 2, 3]))}"
+        if new in used or a.arg.startswith("arg_"):
+            continue
+        used.add(new)
+        old = a.arg
+        a.arg = new
+        node.body = _Subst(old, new).visit(node.body)
+        done += 1
+    return ast.fix_missing_locations(q), done
+
+
 def rel_shadow(q: ast.AST, draw):
     """Rename the parameter of an inner lambda to the name of an ENCLOSING lambda's parameter that the inner lambda
     never mentions (pure shadowing).  Returns (variant, number of candidate (outer, inner) pairs)."""
@@ -121,6 +149,7 @@ def rel_shadow(q: ast.AST, draw):
     walk(q, [])
     if not pairs:
         return q, 0
+    npairs = len(pairs)
     # prefer shadowing something other than the event variable (collection calls never resolve their receiver)
     pairs.sort(key=lambda p_: p_[2] == "e")
     k = draw(st.integers(0, min(len(pairs), 4) - 1))
@@ -128,7 +157,18 @@ def rel_shadow(q: ast.AST, draw):
     old = a.arg
     a.arg = o
     node.body = _Subst(old, o).visit(node.body)
-    return ast.fix_missing_locations(q), len(pairs)
+    # ... and sometimes further lambdas shadow the SAME outer parameter (siblings, successive steps of one chain)
+    for _ in range(draw(st.integers(0, 2))):
+        pairs.clear()
+        walk(q, [])
+        more = [p_ for p_ in pairs if p_[2] == o and p_[1].arg != o]
+        if not more:
+            break
+        node2, a2, _o = more[draw(st.integers(0, min(len(more), 4) - 1))]
+        old2 = a2.arg
+        a2.arg = o
+        node2.body = _Subst(old2, o).visit(node2.body)
+    return ast.fix_missing_locations(q), npairs
 
 
 def chain_nodes(q: ast.AST) -> List[ast.Call]:
@@ -232,9 +272,51 @@ def base_queries(backend):
     return q()
 
 
+CHAIN_PROFILE = {"atlas": ("Jets", "AntiKt4", ["weights", "sumPt"], ["pt", "eta", "m"]), "cms_aod": ("Muons", "muons", ["chi2s", "segments"], ["pt", "eta"]),
+                 "cms_miniaod": ("Muons", "slimmedMuons", ["chi2s", "segments"], ["pt", "eta"])}
+
+
+@st.composite
+def shadow_chain(draw, backend):
+    """inside a loop over j: a chain over another collection of the event - filters on its objects, a step to numbers (Select of a
+    number or SelectMany of a vector: the flattening is what func_adl fuses with what follows), number steps of which one mentions j.
+    Base: all parameters distinct; variant: a drawn non-empty subset of the steps that do not mention j call their parameter j too."""
+    sch = standard_schema(backend)
+    acc, bank, vecs, nums = CHAIN_PROFILE[backend]
+    bank2 = draw(st.sampled_from([bank, "other"]))
+    steps = []  # (operator, body template with {x}, mentions j)
+    for _ in range(draw(st.integers(0, 2))):
+        steps.append(("Where", "{x}." + draw(st.sampled_from(nums)) + "() > " + draw(st.sampled_from(["0", "1.5", "-1"])), False))
+    if draw(st.integers(0, 2)) > 0:
+        steps.append(("SelectMany", "{x}." + draw(st.sampled_from(vecs)) + "()", False))
+    else:
+        steps.append(("Select", "{x}." + draw(st.sampled_from(nums)) + "()", False))
+    for _ in range(draw(st.integers(0, 1))):
+        steps.append(draw(st.sampled_from([("Where", "{x} > 0", False), ("Select", "{x} * 2", False)])))
+    m = draw(st.sampled_from(nums))
+    steps.append(draw(st.sampled_from([("Select", "{x} * j." + m + "()", True), ("Where", "{x} > j." + m + "()", True), ("Select", "j." + m + "() - {x}", True)])))
+    if draw(st.booleans()):
+        steps.append(("Select", "{x} + 2", False))
+    term = draw(st.sampled_from(["Sum()", "Count()"]))
+    free = [i for i, st_ in enumerate(steps) if not st_[2]]
+    renamed = draw(st.sets(st.sampled_from(free), min_size=1, max_size=len(free)))
+
+    def text(shadow):
+        t = f"e.{acc}({bank2!r})"
+        for i, (kind, body, _m) in enumerate(steps):
+            x = "j" if (shadow and i in renamed) else f"p{i}"
+            t += f".{kind}(lambda {x}: {body.format(x=x)})"
+        return f"Select({dataset_text(sch)}, lambda e: e.{acc}({bank!r}).Select(lambda j: {t}.{term}))"
+
+    return text(False), text(True), len(renamed)
+
+
 @st.composite
 def cases(draw, backend):
-    rel = draw(st.sampled_from(["qastle", "alpha", "shadow", "shadow", "metadata", "fuse"]))
+    rel = draw(st.sampled_from(["qastle", "alpha", "shadow", "shadow", "metadata", "fuse", "shadow-chain", "reserved"]))
+    if rel == "shadow-chain":
+        a, b, n = draw(shadow_chain(backend))
+        return {"backend": backend, "rel": "shadow", "a": a, "b": b, "nested": True, "info": {"shadow_pairs": n, "shadow_chain": True}, "labels": ["shadow-chain"]}
     if rel == "fuse":
         a, b, sub = draw(fuse_pairs(backend))
         return {"backend": backend, "rel": sub, "a": a, "b": b, "nested": True, "info": {}}
@@ -251,6 +333,10 @@ def cases(draw, backend):
     elif rel == "shadow":
         var, npairs = rel_shadow(base, draw)
         info = {"shadow_pairs": npairs}
+    elif rel == "reserved":
+        var, nren = rel_reserved(base, draw)
+        info = {"reserved_names": nren}
+        rel = "alpha"
     else:
         var, steps, n = rel_metadata(base, draw)
         info = {"chain_steps": steps, "metadata_calls": n}
@@ -259,6 +345,10 @@ def cases(draw, backend):
 
 
 def outcome(text_or_ast, backend):
+    # func_adl numbers the parameters it invents from a process-wide counter: pin it, so that a case means the same in every process
+    import func_adl.ast.function_simplifier as _fs
+
+    _fs.argument_var_counter = ARG_BASE
     try:
         return ("ok", translate(copy.deepcopy(text_or_ast) if not isinstance(text_or_ast, str) else text_or_ast, backend))
     except Exception as e:
